@@ -243,12 +243,16 @@ static int ms_do_op(int idx, op_t* op) {
     return 1;
   }
   if (!strcmp(op->name, "mraise")) {
+    rt_known_read_site(1);
     int r = fiber_multi_signal_raise(&msig);
+    rt_known_read_site(0);
     gms_raise_done(r, 0);
     return 1;
   }
   if (!strcmp(op->name, "mstrict")) {
+    rt_known_read_site(1);
     fiber_multi_signal_raise_strict(&msig);
+    rt_known_read_site(0);
     gms_raise_done(1, 1);
     return 1;
   }
@@ -259,7 +263,9 @@ static int ms_do_op(int idx, op_t* op) {
       ms_ctl_parked = 0;
       gms_quiescent();
       if (!gms_leftover()) break;
+      rt_known_read_site(1);
       int r = fiber_multi_signal_raise(&msig);
+      rt_known_read_site(0);
       gms_raise_done(r, 0);
     }
     ms_ctl_done = 1;
